@@ -158,8 +158,20 @@ PROP = dict(
          "partitions with 1..8 parts (two-way algorithms: 1..2; one-sided and unbalanced included) x 6 weight families x 8 point "
          "families x 6 graph families (random, grid, path, star, disconnected, cycle) x parameter choices (pass/move limits incl. "
          "0 and None, imbalance caps, k-means iteration limits) x rayon pool in {1,2,3,4,8,16}; distinct = distinct (algorithm, "
-         "pool, parameters, input); non-trivial = at least 3 elements and 2 parts",
-    class_names={0: "vnbest", 1: "vnfirst", 2: "kmeans2", 3: "kmeans3", 4: "fm", 5: "kl", 6: "arcswap"},
+         "pool, parameters, input); non-trivial = at least 3 elements and 2 parts. "
+         "K-MEANS MODEL CASES (second binary c02km, 640 / 3200 cases): KMeans 2D/3D on four streams -- exact (integer coordinates "
+         "and weights, 3/5 with a power-of-two point count), fractional (C02 clauses only), large (100..3000 points, implementation "
+         "only), outside the contract (gap in the ids, fewer points or fewer weights than ids; compared with the model, not judged) "
+         "-- x 7 point families x 6 weight families x initial partitions (random valid, one-sided, blocks, round robin) x max_iter "
+         "in {0,1,2,3,5,8} x max_balance_iter in {0..4} x imbalance_tol in {0,0.01,1,5,50,1e9} x delta_threshold in {0,0.01,1,100} x "
+         "erode / hilbert / mbr_early_break flags; EVERY case runs under pools 1,2,3,4,8,16 twice; the model (binary64, vm_compute) "
+         "is compared with all twelve final partitions when the input is integer valued, erode is off and the rotation matrix "
+         "recomputed by the harness equals the implementation's own box under every pool (ZCurve hook); non-trivial additionally "
+         "needs max_iter >= 1 and max_balance_iter >= 1",
+    class_names={0: "vnbest", 1: "vnfirst", 2: "kmeans2", 3: "kmeans3", 4: "fm", 5: "kl", 6: "arcswap",
+                 100: "k-means model cases: not compared with the model (fractional / large / erode / rotation not validated)",
+                 101: "k-means model cases: model = implementation, schedule-sensitivity flag raised",
+                 102: "k-means model cases: model = implementation, no flag (every schedule of the model gives this partition)"},
     trusted_base=[
         "axioms: C02_arcswap_partial (ArcSwap with the f64 share the code computes) imports C05's Flocq-based theorem that the "
         "f64 share is the exact quotient below 2^53 and therefore uses the axioms of Coq's classical real numbers "
@@ -167,7 +179,16 @@ PROP = dict(
         "FunctionalExtensionality.functional_extensionality_dep, Classical_Prop.classic); every other theorem of "
         "Properties/C02.v, C02_arcswap_exact_share_partial included, is closed under the global context",
         "Flocq 4.1 (through Proofs/ArcSwapShare.v, for C02_arcswap_partial only)",
-        "KMeans: only an ABSTRACT model (the numeric core is an oracle); its arithmetic is not verified",
+        "KMeans: CONCRETE model Model/KMeans.v (k_means.rs and the geometry.rs helpers line by line, generic over the arithmetic, "
+        "binary64 instance on Coq's SpecFloat with the literals read by the translator); C02_kmeans (binary64, every schedule, "
+        "every setting, any weights: Ok, length kept, ids of the input) is axiom-free; the rotation matrix obb_to_aabb "
+        "(nalgebra symmetric_eigen + Householder + try_inverse) is an INPUT of the model (any matrix with at least one row; "
+        "`try_inverse() = None` is a panic site outside the theorem), recomputed by the harness with the same nalgebra calls and "
+        "validated per case against the box the implementation builds (ZCurve hook); f64::log / exp (erode) are arbitrary "
+        "functions in the theorems and not compared in the runs; model = code is checked on FINAL partitions only (no hook "
+        "exports k-means' iterations), translator: 4 literals + 26 guard / operator shapes (C02_kmeans_source_shape)",
+        "k-means runs: usize overflow of `1 + max id` and more than 20 clusters (rayon's par_sort_by switches from insertion to "
+        "merge sort: same result unless a distance is NaN) are not modelled",
         "the per-algorithm theorems for VnBest/VnFirst/FM/KL/ArcSwap are derived from the property theorems of Properties/C14, C07, C15, C05 "
         "(by name; Proofs/C02Collect.v; KL at the flags of Gen/KlGen.v, for either edge_cut function) and are tied to the code by those checks; this check itself runs the implementation only (panic / hang / "
         "length / id bound)",
@@ -196,13 +217,16 @@ MANIFEST = dict(
          "oracle exists), KernighanLin (PARTIAL: at most two part ids; labels only permuted), ArcSwap (every reachable state "
          "under every schedule: length kept, ids below part_count; PARTIAL no-panic / no-deadlock / well-founded stepping / "
          "completion for the f64 share of the code when |cap| + total weight < 2^53 -- classical-reals axioms -- and for the "
-         "exact share without bound); k-means only through an abstract model whose "
-         "numeric core is an arbitrary oracle (for EVERY oracle the output keeps its length and uses only ids of the input). "
+         "exact share without bound); KMeans (FULL, concrete binary64 model mirroring k_means.rs, every family of split trees, every "
+         "setting, any weights, rotation matrix as input: a valid partition with as many points as ids gives Ok, same length, ids of "
+         "the input only; the model is compared bit for bit with the implementation's final partition under six pools twice). "
          "Plus a run of all six algorithms on valid partitions under six pool sizes with overflow checks and debug assertions "
          "on, every output judged by the exact validity checker; panics and hangs are violations. KernighanLin on more than "
          "two parts is a known finding (unimplemented!).",
     design_ref="DESIGN.md §7 C02",
-    note="PARTIAL for KMeans (oracle model), KernighanLin (two part ids) and ArcSwap's no-hang clause (weights below 2^53 for the code's f64 share). This "
-         "check does not evaluate a model per case; the models are compared in C05/C07/C14/C15.",
-    technique="Coq proof (per-algorithm validity theorems; abstract oracle model for k-means) + certified validity checker on implementation runs",
+    note="PARTIAL for KernighanLin (two part ids) and ArcSwap's no-hang clause (weights below 2^53 for the code's f64 share); KMeans is "
+         "proved for its concrete model with the rotation matrix as an input (nalgebra's eigen-decomposition is not modelled). The main "
+         "binary does not evaluate a model per case (the models of the other algorithms are compared in C05/C07/C14/C15); the k-means "
+         "binary c02km evaluates Model/KMeans.v on every integer-valued case.",
+    technique="Coq proof (per-algorithm validity theorems; concrete executable k-means model compared with the implementation) + certified validity checker on implementation runs",
 )
